@@ -37,6 +37,22 @@ import (
 	"go.uber.org/zap"
 )
 
+// flakyVNode fails the next N Get calls for client-token keys with a retryable
+// chord error (a KV error during the token lookup of an RPC's authentication).
+type flakyVNode struct {
+	spec.VNode
+	failTokenGets *int
+}
+
+func (f flakyVNode) Get(ctx context.Context, key []byte) ([]byte, error) {
+	if *f.failTokenGets > 0 && strings.HasPrefix(string(key), "/tunnel/client/token/") {
+		*f.failTokenGets--
+		simrt.Probe("token-lookup-fault")
+		return nil, spec.ErrKVStaleOwnership
+	}
+	return f.VNode.Get(ctx, key)
+}
+
 type detReader struct{ r *simrt.Rand }
 
 func (d detReader) Read(p []byte) (int, error) {
@@ -69,6 +85,9 @@ type World struct {
 	ctx     context.Context
 	cancel  context.CancelFunc
 	resolver *scriptedResolver
+	certs    *scriptedCerts
+	proofs   map[string]cachedProof
+	failTokenGets int
 }
 
 type Srv struct {
@@ -173,10 +192,10 @@ func (w *World) boot() bool {
 		s.ChordT = w.snet.NewTransport(&protocol.Node{Id: h.ID, Address: h.Name})
 		s.S = server.New(server.Config{
 			Logger: zap.NewNop(), ParentContext: w.ctx,
-			Chord:           spec.WrapRetryKV(h.Node, 200*time.Millisecond, 4),
+			Chord:           spec.WrapRetryKV(flakyVNode{VNode: h.Node, failTokenGets: &w.failTokenGets}, 200*time.Millisecond, 4),
 			TunnelTransport: s.TunT, ChordTransport: s.ChordT,
 			Apex: "apex.example.com", Acme: "acme.example.com",
-			Resolver: w.resolver,
+			Resolver: w.resolver, CertProvider: w.certs,
 		})
 		router := transport.NewStreamRouter(zap.NewNop(), s.ChordT, s.TunT)
 		router.Accept(w.ctx)
@@ -286,6 +305,7 @@ func Run(t *testing.T, prop string, seed uint64, tier string, replay *hcommon.Re
 				return strings.HasPrefix(site, "chord/local.go:") && draw()&0xffffffff < skip
 			}}, func() {
 			w := &World{plan: p, res: &res, r: simrt.NewRand(simrt.Mix(seed, 0x776f726c64)), resolver: &scriptedResolver{answers: map[string]string{}, flip: map[string][]string{}}}
+			w.certs = &scriptedCerts{w: w, calls: map[string]int{}, issued: map[string]*tls.Certificate{}, validFor: time.Hour}
 			w.ctx, w.cancel = context.WithCancel(context.Background())
 			defer w.cancel()
 			if prop == "C42" {
@@ -318,6 +338,8 @@ func Run(t *testing.T, prop string, seed uint64, tier string, replay *hcommon.Re
 				w.checkC29(w.resolver)
 			case "C27":
 				w.checkC27()
+			case "C30":
+				w.checkC30(w.certs)
 			}
 		})
 	})
@@ -370,7 +392,12 @@ func (w *World) checkC25() {
 				f.Set(reflect.ValueOf([]*protocol.Node{w.servers[0].TunT.Identity()}))
 			}
 			simrt.Sleep(150*time.Millisecond, "h:pace") // stay under the per-address rate limit
+			if w.r.Chance(0.5) {
+				// the token lookup itself fails (retryably) for longer than the retry budget
+				w.failTokenGets = 4 + w.r.Intn(4)
+			}
 			_, err := w.call(c, w.r.Intn(3), m, req.Interface())
+			w.failTokenGets = 0
 			if err == nil {
 				w.res.Violate("C25", "unauthenticated-call-served/"+c.Kind+"/"+m, "%s was served for a caller of kind %q (no verified, registered client identity)", m, c.Kind)
 			} else {
@@ -464,7 +491,12 @@ func (w *World) checkC26() {
 					var nodes []*protocol.Node
 					for _, s := range op.Servers {
 						if s < len(w.servers) {
-							nodes = append(nodes, w.servers[s].TunT.Identity())
+							id := w.servers[s].TunT.Identity()
+							if w.r.Chance(0.3) {
+								// right address, made-up identity: the route must still name the registered server
+								id = &protocol.Node{Address: id.GetAddress(), Id: id.GetId() ^ 0xabcdef, Rendezvous: true}
+							}
+							nodes = append(nodes, id)
 						} else {
 							nodes = append(nodes, &protocol.Node{Address: "ghost:1", Id: 77})
 						}
@@ -549,6 +581,15 @@ func (w *World) checkRoutes(c *Client, host string, requested []*protocol.Node, 
 		}
 		if route.GetTunnelDestination().GetAddress() != n.GetAddress() {
 			w.res.Violate("C26", "route-names-other-server", "route slot %d of %q names server %q, requested %q", i+1, host, route.GetTunnelDestination().GetAddress(), n.GetAddress())
+		}
+		for _, sv := range w.servers {
+			if sv.TunT.Identity().GetAddress() == n.GetAddress() {
+				reg := sv.TunT.Identity()
+				td := route.GetTunnelDestination()
+				if td.GetId() != reg.GetId() || td.GetRendezvous() != reg.GetRendezvous() || route.GetChordDestination().GetAddress() != sv.ChordT.Identity().GetAddress() {
+					w.res.Violate("C26", "route-server-identity-not-from-record", "route slot %d of %q names server %v / chord %v; the server published itself as %v / %v", i+1, host, td, route.GetChordDestination(), reg, sv.ChordT.Identity())
+				}
+			}
 		}
 		if route.GetHostname() != host {
 			w.res.Violate("C26", "route-hostname", "route slot %d of %q carries hostname %q", i+1, host, route.GetHostname())
